@@ -25,6 +25,7 @@ struct Env {
   std::map<std::string, Ref> refs;                   // names currently bound to a table element
   std::vector<std::string> busy_iters;               // iterators of running loops
   int depth = 0;                                     // recursion depth of this context
+  int loops = 0;                                     // loops of this context that are running (break / continue outside any are no-ops)
   bool has_returned = false; RVal returned;
 };
 
@@ -268,6 +269,7 @@ struct Interp {
       return NORMAL;
     }
     if (k == "while") {
+      struct LoopGuard { Env& e; LoopGuard(Env& x) : e(x) { ++e.loops; } ~LoopGuard() { --e.loops; } } loop_guard(env);
       for (;;) {
         RVal c = eval(env, s["c"]); need(c, RVal::Bool, "while"); if (!c.b) return NORMAL;
         Flow f = block(env, s["body"]);
@@ -276,6 +278,7 @@ struct Interp {
       }
     }
     if (k == "for") {
+      struct LoopGuard { Env& e; LoopGuard(Env& x) : e(x) { ++e.loops; } ~LoopGuard() { --e.loops; } } loop_guard(env);
       std::string n = upper(s["n"].get<std::string>());
       // the three control expressions are evaluated once; a null bound or step means zero iterations
       RVal b = eval(env, s["a"]); if (b.t == RVal::Null) return NORMAL; need(b, RVal::Int, "for");
@@ -302,6 +305,7 @@ struct Interp {
       }
     }
     if (k == "forall") {
+      struct LoopGuard { Env& e; LoopGuard(Env& x) : e(x) { ++e.loops; } ~LoopGuard() { --e.loops; } } loop_guard(env);
       std::string n = upper(s["n"].get<std::string>());
       if (s["o"].value("k", "") != "var") throw Unsupported{"forall over a temporary"};
       std::string tn = upper(s["o"]["n"].get<std::string>());
@@ -322,8 +326,8 @@ struct Interp {
         env.refs[n] = Ref{tn, idx};
       }
     }
-    if (k == "break") return BREAK;
-    if (k == "continue") return CONTINUE;
+    if (k == "break") return env.loops > 0 ? BREAK : NORMAL;
+    if (k == "continue") return env.loops > 0 ? CONTINUE : NORMAL;
     if (k == "return") { if (s.contains("e") && !s["e"].is_null()) { env.returned = eval(env, s["e"]); env.has_returned = true; } return RETURN; }
     if (k == "raise") { std::string n = upper(s["n"].get<std::string>()); if (n == "OUT_OF_RANGE") throw RErr{21, ""}; if (n == "DIVIDE_BY_ZERO") throw RErr{23, ""}; throw RErr{1, n}; }
     if (k == "begin") {
